@@ -115,7 +115,7 @@ package choquet
 //@   assigns *criteria
 //@   ensures [same_list_object] *criteria == old(*criteria)
 //@ func (*ChoquetIntegralBiasListener).OnCriterionAdded
-//@   property C07 C18
+//@   property C07 C18 C03
 //@   fnparam generator ensures 0.0 <= result && result < 1.0
 //@   requires [parameters] typeis(params, choquetParams) && params.(choquetParams).weights != nil && params.(choquetParams).criteria != nil
 //@   requires [the_new_criterion_has_no_capacity_yet] !(criterion.Id in *params.(choquetParams).weights)
@@ -125,7 +125,7 @@ package choquet
 //@   loop 1 invariant [ctx] fresh(newWeights) && newWeights != nil
 //@   loop 1 invariant [only_new_so_far] forall q string :: q in newWeights ==> !(q in *oldWeights)
 //@ func (*ChoquetIntegralBiasListener).Merge
-//@   property C07 C18
+//@   property C07 C18 C03
 //@   requires [parameters] typeis(params, choquetParams) && params.(choquetParams).weights != nil && params.(choquetParams).criteria != nil
 //@   requires [addition] typeis(addition, choquetParams) && addition.(choquetParams).weights != nil && addition.(choquetParams).criteria != nil
 //@   panics_iff [a_capacity_is_given_twice] exists q string :: q in *params.(choquetParams).weights && q in *addition.(choquetParams).weights
@@ -150,7 +150,7 @@ package choquet
 
 // omission: the capacities of the subsets of the kept criteria, each as the parameters gave it; the kept criteria become the list
 //@ func (*ChoquetIntegralBiasListener).OnCriteriaRemoved
-//@   property C07 C15
+//@   property C07 C15 C03
 //@   requires [parameters] typeis(params, choquetParams) && params.(choquetParams).weights != nil
 //@   ensures [capacities_restricted_to_the_kept_criteria_unchanged] typeis(result, choquetParams) && result.(choquetParams).weights != nil && result.(choquetParams).criteria == leftCriteria
 //@             && forall q string :: q in *result.(choquetParams).weights ==> q in *params.(choquetParams).weights && (*result.(choquetParams).weights)[q] == (*params.(choquetParams).weights)[q]
